@@ -38,7 +38,11 @@ def make_case(seed, i, nperm):
     opts = {"root_opts": root_opts, "nsources": rng.pick([1, 1, 2, 3]),
             "layout": rng.pick(["flat", "subdirs", "subdirs"]), "examples": False, "tests": True,
             "warnings": rng.chance(2, 3), "multi_item": rng.pick([0, 30, 50]),
-            "deps": rng.pick([0, 0, 0, 1, 2, 2, 3]), "nfiles": rng.range(3, 7)}
+            "deps": rng.pick([0, 0, 0, 1, 2, 2, 3]), "nfiles": rng.range(6, 8),
+            # every construct whose resolution walks a hash map of symbols: default-direction modports, mixin
+            # interfaces across files, generic interfaces / packages instantiated from several files, enum values
+            # taken from another file's package
+            "hash_shapes": True}
     u = projgen2.gen_universe(rng.fork(), opts)
     case = L.case_from_universe(u)
     case["index"] = i
@@ -249,10 +253,10 @@ def run_case(case, scratch, repeats):
             if kind in wobble:
                 bump("order_difference_ignored_unstable_kind")
                 continue
-            ocls = order_class(case, base, o, kind) if kind in ("sv", "map", "bundle") else cls
-            res["findings"].append((f"order:{kind}-differs:{ocls}",
-                                    f"`veryl build {' '.join(perm)}` vs default order ({kind}): {detail}",
-                                    {"kind": kind, "perm": perm}))
+            for ocls in (order_classes(case, base, o, kind) if kind in ("sv", "map", "bundle") else [cls]):
+                res["findings"].append((f"order:{kind}-differs:{ocls}",
+                                        f"`veryl build {' '.join(perm)}` vs default order ({kind}): {detail}",
+                                        {"kind": kind, "perm": perm}))
     bump("distinct_orders", len(orders))
     res["orders"] = len(orders)
     if not os.environ.get("VERIF_KEEP_SCRATCH"):
@@ -260,8 +264,12 @@ def run_case(case, scratch, repeats):
     return res
 
 
-def order_class(case, base, other, kind):
-    """Scenario class of an order-dependent output: which sources do the differing outputs come from?"""
+GENERIC_KINDS = ("gconst:", "gpkg:", "giface:", "gpackage:")
+
+
+def order_classes(case, base, other, kind):
+    """Scenario classes of an order-dependent output: which sources do the differing outputs (or bundle chunks)
+    come from?  One class per kind of source file involved."""
     files = {f["uid"]: f for f in case["files"]}
     uids = set()
     bo, oo = base["outputs"], other["outputs"]
@@ -276,9 +284,43 @@ def order_class(case, base, other, kind):
                 uids |= {u for _o, u in L.markers(ch)}
         else:
             uids |= {u for _o, u in L.markers(ta)} | {u for _o, u in L.markers(tb)}
-    if uids and all(any(i.startswith(("gconst:", "gpkg:")) for i in files[u]["items"]) for u in uids if u in files):
-        return "output-of-a-file-defining-a-generic-module"
-    return "other-output"
+    ta, tb = uid_texts(case, base), uid_texts(case, other)
+    out = set()
+    for u in uids:
+        # a pure permutation of the emitted lines (modport members, generic instances) is one failure kind,
+        # lost / changed content another
+        how = "lines-reordered" if u in ta and u in tb and norm_lines(ta[u]) == norm_lines(tb[u]) else "content-differs"
+        items = files[u]["items"] if u in files else []
+        gen = any(i.startswith(GENERIC_KINDS) for i in items)
+        mix = any(i.startswith("mixiface:") for i in items)
+        if gen:
+            # instances of a generic module / interface / package are emitted in arrival order (notes D3)
+            out.add("output-of-a-file-defining-a-generic-module:" + how)
+        if mix:
+            out.add("output-of-a-file-defining-a-mixin-interface:" + how)
+        if not gen and not mix:
+            out.add("other-output:" + how)
+    return sorted(out) or ["other-output:content-differs"]
+
+
+def uid_texts(case, run_result):
+    """{source uid: emitted SystemVerilog text of that source} from the .sv files / the bundle chunks."""
+    out = {}
+    for rel, b in run_result["outputs"].items():
+        k = kind_of(rel, case)
+        if k == "sv":
+            t = b.decode("utf-8", "replace")
+            for _o, u in L.markers(t):
+                out[u] = out.get(u, "") + t
+        elif k == "bundle":
+            for ch in chunks(b.decode("utf-8", "replace")):
+                for _o, u in L.markers(ch):
+                    out[u] = out.get(u, "") + ch
+    return out
+
+
+def norm_lines(text):
+    return sorted(" ".join(l.replace(",", " ").split()) for l in text.splitlines() if l.strip())
 
 
 def group_by_sources(case, perm):
@@ -333,6 +375,16 @@ def main():
             run.count("out_dir_projects")
         for ft in case["features"]:
             run.seen("features", ft)
+        if res["counters"].get("permutations_compared"):
+            for ft, name in (("mixin-interface-across-files", "shape_mixin_interface_across_files"),
+                             ("modport-default-direction", "shape_modport_default_direction"),
+                             ("generic-interface-instance", "shape_generic_interface_instances"),
+                             ("generic-package-instance", "shape_generic_package_instances"),
+                             ("enum-values-from-other-package", "shape_enum_values_from_other_package")):
+                if ft in case["features"]:
+                    run.count(name)
+            if any(x.startswith("modport-port-mixiface") for x in case["features"]):
+                run.count("shape_module_with_mixin_modport_port")
         if res["counters"].get("projects_built") and (res["counters"].get("repeat_runs_compared", 0)
                                                       + res["counters"].get("permutations_compared", 0)) >= 1:
             run.nontrivial(L.sha(json.dumps(case["tree"], sort_keys=True).encode()))
@@ -351,7 +403,10 @@ def main():
     if args.replay:
         run.finish([])
     run.finish([("projects_built", 5), ("repeat_runs_compared", 10), ("permutations_compared", 15),
-                ("distinct_orders", 20), ("diagnostic_records", 3), ("scenarios", 2), ("out_dir_projects", 1)])
+                ("distinct_orders", 20), ("diagnostic_records", 3), ("scenarios", 2), ("out_dir_projects", 1),
+                ("shape_mixin_interface_across_files", 5), ("shape_modport_default_direction", 5),
+                ("shape_module_with_mixin_modport_port", 4), ("shape_generic_interface_instances", 3),
+                ("shape_generic_package_instances", 3), ("shape_enum_values_from_other_package", 1)])
 
 
 if __name__ == "__main__":
